@@ -421,10 +421,26 @@ func (c *Ctx) exec(fr *frame, in ssa.Instruction) {
 		if n < 0 || cp < n {
 			panic(c.goPanic("makeslice: len out of range (%d) at %s", n, c.pos(in.Pos())))
 		}
+		elem := in.Type().Underlying().(*types.Slice).Elem()
 		if cp > 1<<24 {
+			// the Go runtime panics when the request exceeds its address space limit (2^48 bytes on 64-bit
+			// platforms); below that it would try to allocate, which the engine does not follow
+			esz := int64(8)
+			if b, ok := elem.Underlying().(*types.Basic); ok {
+				switch b.Kind() {
+				case types.Bool, types.Int8, types.Uint8:
+					esz = 1
+				case types.Int16, types.Uint16:
+					esz = 2
+				case types.Int32, types.Uint32, types.Float32:
+					esz = 4
+				}
+			}
+			if cp > (1<<47)/esz {
+				panic(c.goPanic("makeslice: cap out of range (%d elements) at %s", cp, c.pos(in.Pos())))
+			}
 			panic(c.abort("makeslice: %d elements is beyond the engine's bound", cp))
 		}
-		elem := in.Type().Underlying().(*types.Slice).Elem()
 		fr.env[in] = SliceV{B: c.newBacking(elem, int(cp)), Len: int(n), Cap: int(cp)}
 	case *ssa.MakeMap:
 		mt := in.Type().Underlying().(*types.Map)
